@@ -1394,9 +1394,39 @@ func (f *Frugal) validateServiceTypes(service *Service, includes map[string]*Fru
 				return fmt.Errorf("Invalid exception type %s for %s.%s",
 					field.Type.Name, service.Name, method.Name)
 			}
+			if !f.isException(field.Type) {
+				return fmt.Errorf("Invalid exception type %s for %s.%s, not an exception",
+					field.Type.Name, service.Name, method.Name)
+			}
 		}
 	}
 	return nil
+}
+
+// isException indicates if the Type, followed through typedefs and includes,
+// is declared as an exception.
+func (f *Frugal) isException(t *Type) bool {
+	containing := f
+	for {
+		if include := t.IncludeName(); include != "" {
+			included, ok := containing.ParsedIncludes[include]
+			if !ok {
+				return false
+			}
+			containing = included
+		}
+		typedef, ok := containing.typedefIndex[t.ParamName()]
+		if !ok {
+			break
+		}
+		t = typedef.Type
+	}
+	for _, exception := range containing.Exceptions {
+		if exception.Name == t.ParamName() {
+			return true
+		}
+	}
+	return false
 }
 func (f *Frugal) validateScopes(includes map[string]*Frugal) error {
 	for _, scope := range f.Scopes {
